@@ -40,7 +40,9 @@ SHARED = [("algebra", {"n": 1200}, {"n": 25000})]
 def plan(tier, seed):
     thorough = tier == "thorough"
     n = 16 if thorough else 8
-    return [{"variant": "c" if s % 2 else "py", "part": "algebra", "shard": s, "nshards": n, "params": {"n": 150000 if thorough else 5000}} for s in range(n)]
+    jobs = [{"variant": "c" if s % 2 else "py", "part": "algebra", "shard": s, "nshards": n, "params": {"n": 150000 if thorough else 5000}} for s in range(n)]
+    jobs += [{"variant": "c" if s % 2 else "py", "part": "optree", "shard": s, "nshards": 2, "params": {"n": 150000 if thorough else 6000}} for s in range(2)]
+    return jobs
 
 
 def strip1(parts):
@@ -70,7 +72,8 @@ def check_structure(ctx, u, case):
     if recomposed != rp:
         ctx.fail("raw_parts_recompose", case, f"raw_parts={rparts!r} re-compose to {recomposed!r} != raw_path {rp!r}")
     name = u.name
-    want_name = "" if tuple(parts) == ("/",) else parts[-1]
+    # (the root is recognised on the RAW parts: a lone segment '%2F' decodes to the same tuple ('/',) as the root)
+    want_name = "" if tuple(rparts) == ("/",) else parts[-1]
     if name != want_name:
         ctx.fail("name_not_last_part", case, f"name={name!r} parts={parts!r}")
     rname = u.raw_name
@@ -235,6 +238,11 @@ def run(ctx):
 
     if ctx.part == "replay":
         c = ctx.params["replay"]["case"]
+        if "op" in c:
+            from ..ops import replay_optree
+
+            replay_optree(ctx, c, check_structure)
+            return
         u = URL(c["base"], encoded=c.get("encoded", False))
         check_structure(ctx, u, c)
         if "s" in c:
@@ -244,6 +252,17 @@ def run(ctx):
             if "b" in c:
                 check_joinpath_assoc(ctx, u, c["s"], c["b"], c)
                 check_joinpath_pieces(ctx, u, c["s"], c["b"], c)
+        return
+    if ctx.part == "optree":
+        from ..ops import run_optrees
+
+        def inv(ctx_, u, case):
+            try:
+                check_structure(ctx_, u, case)
+            except ValueError:
+                ctx_.count("optree_unreadable")  # encoded garbage whose accessors raise: not this property's subject
+
+        run_optrees(ctx, inv, ctx.params["n"], surrogates=False)
         return
     r = ctx.rng
     tg = TextGen(r, surrogates=False)
